@@ -136,3 +136,439 @@ Proof.
   rewrite (closure_captures_by_value _ _ c1 _ _ _ _ H1), (closure_captures_by_value _ _ c2 _ _ _ _ H2).
   unfold with_env. destruct (tick st0 _); reflexivity.
 Qed.
+
+(* ------------------------------------------------------------------------------------------
+   Fuel monotonicity: an outcome other than Timeout is stable under more fuel, for every
+   judgement of the evaluator.  Hence `eval` defines a partial function (the outcome, when
+   there is one, does not depend on the fuel). *)
+Definition le_res {A} (r1 r2 : res A) : Prop := r1 = Timeout \/ r1 = r2.
+
+Lemma le_refl : forall A (r : res A), le_res r r.
+Proof. intros; right; reflexivity. Qed.
+Lemma le_timeout : forall A (r : res A), le_res Timeout r.
+Proof. intros; left; reflexivity. Qed.
+Lemma le_tick : forall A s (a b : res A), le_res a b -> le_res (tick s a) (tick s b).
+Proof. intros A s a b [-> | ->]; [left | right]; reflexivity. Qed.
+Lemma le_bind : forall A B (a b : res A) (f g : A -> res B),
+  le_res a b -> (forall x, le_res (f x) (g x)) -> le_res (bind a f) (bind b g).
+Proof.
+  intros A B a b f g [-> | ->] H; [left; reflexivity|].
+  destruct b; cbn [bind]; auto using le_tick, le_refl.
+Qed.
+Lemma le_with_env : forall A e (a b : res A), le_res a b -> le_res (with_env e a) (with_env e b).
+Proof. intros. unfold with_env. apply le_bind; auto using le_refl. Qed.
+#[local] Hint Resolve le_refl le_timeout le_tick le_with_env : le.
+
+Lemma any_res_le : forall (f g : ty -> res bool) ts,
+  (forall t, le_res (f t) (g t)) -> le_res (any_res f ts) (any_res g ts).
+Proof.
+  intros f g ts H. induction ts as [|t r IH]; cbn [any_res]; auto with le.
+  apply le_bind; auto. intros [|]; auto with le.
+Qed.
+Lemma all_res_le : forall (f g : ty -> res bool) ts,
+  (forall t, le_res (f t) (g t)) -> le_res (all_res f ts) (all_res g ts).
+Proof.
+  intros f g ts H. induction ts as [|t r IH]; cbn [all_res]; auto with le.
+  apply le_bind; auto. intros [|]; auto with le.
+Qed.
+Lemma full_fields_le : forall (f g : ty -> value -> res bool) fts vs,
+  (forall t v, le_res (f t v) (g t v)) -> le_res (full_fields f fts vs) (full_fields g fts vs).
+Proof.
+  intros f g fts. induction fts as [|ft r IH]; intros vs H; destruct vs as [|[k v] vs]; cbn [full_fields]; auto with le.
+  destruct ft as [l t|]; auto with le. destruct (oatom_eqb l k); auto with le.
+  apply le_bind; auto. intros [|]; auto with le.
+Qed.
+Lemma partial_fields_le : forall (f g : ty -> value -> res bool) fts vs,
+  (forall t v, le_res (f t v) (g t v)) -> le_res (partial_fields f fts vs) (partial_fields g fts vs).
+Proof.
+  intros f g fts vs H. induction fts as [|ft r IH]; cbn [partial_fields]; auto with le.
+  destruct ft as [[l|] t|]; auto with le. destruct (find_field l vs); auto with le.
+  apply le_bind; auto. intros [|]; auto with le.
+Qed.
+
+Lemma inhab_mono : forall n m te root t v, (n <= m)%nat ->
+  le_res (inhab n te root t v) (inhab m te root t v).
+Proof.
+  induction n as [|n IH]; intros m te root t v Hle; [apply le_timeout|].
+  destruct m as [|m]; [lia|]. assert (Hle' : (n <= m)%nat) by lia.
+  cbn [inhab]. destruct t as [p|name part fts|i o|ts|ts|x args|d| | |mo mem args|args]; auto with le.
+  - destruct v; auto with le. destruct part.
+    + destruct (match name with None => true | Some _ => oatom_eqb name name0 end); auto with le.
+      apply partial_fields_le. intros; apply IH; assumption.
+    + destruct (oatom_eqb name name0); auto with le. apply full_fields_le. intros; apply IH; assumption.
+  - apply any_res_le. intros; apply IH; assumption.
+  - apply all_res_le. intros; apply IH; assumption.
+  - destruct (lookup_alias (Some x) te) as [[ps body]|]; auto with le.
+    destruct (existsb has_cycle args); auto with le. destruct (zip_params ps args); auto with le.
+  - destruct d as [d|]; auto with le. destruct (d =? 0); auto with le.
+  - destruct (lookup_alias None te) as [[ps body]|]; auto with le.
+    destruct (existsb has_cycle args); auto with le. destruct (zip_params ps args); auto with le.
+Qed.
+
+(* induction principle for the nested pattern type *)
+Section PatternInd.
+  Variable P : pattern -> Prop.
+  Hypothesis HId : forall x, P (MIdentifier x).
+  Hypothesis HLit : forall l, P (MLiteral l).
+  Hypothesis HStr : forall b, P (MString b).
+  Hypothesis HTup : forall n fs, Forall (fun f => match f with MatchField _ q => P q end) fs -> P (MTuple n fs).
+  Hypothesis HPar : forall n fs,
+    Forall (fun f => match f with PartialPatternField _ (Some q) => P q | _ => True end) fs -> P (MPartial n fs).
+  Hypothesis HStar : forall n, P (MStar n).
+  Hypothesis HPh : P MPlaceholder.
+  Hypothesis HRef : forall x, P (MReference x).
+  Hypothesis HTy : forall t, P (MType t).
+  Hypothesis HOr : forall ps, Forall P ps -> P (MOr ps).
+  Hypothesis HAs : forall t x, P (MAs t x).
+
+  Fixpoint pattern_ind' (p : pattern) : P p :=
+    match p with
+    | MIdentifier x => HId x
+    | MLiteral l => HLit l
+    | MString b => HStr b
+    | MTuple n fs =>
+        HTup n fs ((fix go (l : list match_field) : Forall (fun f => match f with MatchField _ q => P q end) l :=
+                      match l with
+                      | [] => Forall_nil _
+                      | MatchField k q :: r => Forall_cons (MatchField k q) (pattern_ind' q) (go r)
+                      end) fs)
+    | MPartial n fs =>
+        HPar n fs ((fix go (l : list partial_field)
+                      : Forall (fun f => match f with PartialPatternField _ (Some q) => P q | _ => True end) l :=
+                      match l with
+                      | [] => Forall_nil _
+                      | PartialPatternField k (Some q) :: r =>
+                          Forall_cons (PartialPatternField k (Some q)) (pattern_ind' q) (go r)
+                      | PartialPatternField k None :: r => Forall_cons (PartialPatternField k None) I (go r)
+                      end) fs)
+    | MStar n => HStar n
+    | MPlaceholder => HPh
+    | MReference x => HRef x
+    | MType t => HTy t
+    | MOr ps => HOr ps ((fix go (l : list pattern) : Forall P l :=
+                           match l with [] => Forall_nil _ | q :: r => Forall_cons q (pattern_ind' q) (go r) end) ps)
+    | MAs t x => HAs t x
+    end.
+End PatternInd.
+
+Definition le_pres (p1 p2 : pres) : Prop := p1 = PTimeout \/ p1 = p2.
+Lemma le_pres_refl : forall p, le_pres p p.
+Proof. intros; right; reflexivity. Qed.
+#[local] Hint Resolve le_pres_refl : le.
+
+Lemma type_verdict_mono : forall n m te t v k, (n <= m)%nat ->
+  le_pres (type_verdict n te t v k) (type_verdict m te t v k).
+Proof.
+  intros n m te t v k Hle. unfold type_verdict.
+  destruct (inhab_mono n m te t t v Hle) as [-> | ->]; [left; reflexivity | right; reflexivity].
+Qed.
+
+Lemma pmatch_mono : forall n m te outer, (n <= m)%nat ->
+  forall p b v, le_pres (pmatch n te outer b p v) (pmatch m te outer b p v).
+Proof.
+  intros n m te outer Hle p. induction p as [x|l|bs|name fs IH|name fs IH|name| |x|t|ps IH|t x] using pattern_ind';
+    intros b v; cbn [pmatch]; auto with le.
+  - destruct v as [| |vn vfs| |]; auto with le. destruct (oatom_eqb name vn); auto with le.
+    revert b vfs. induction IH as [|[l q] fs' Hq _ IHfs]; intros b vfs; destruct vfs as [|[k w] ws]; auto with le.
+    destruct (oatom_eqb l k); auto with le.
+    destruct (Hq b w) as [-> | ->]; [left; reflexivity|].
+    destruct (pmatch m te outer b q w); auto with le.
+  - destruct v as [| |vn vfs| |]; auto with le. destruct (name_ok name vn); auto with le.
+    revert b. induction IH as [|[l [q|]] fs' Hq _ IHfs]; intros b; auto with le.
+    + destruct (find_field l vfs) as [w|]; auto with le.
+      destruct (Hq b w) as [-> | ->]; [left; reflexivity|].
+      destruct (pmatch m te outer b q w); auto with le.
+    + destruct (find_field l vfs) as [w|]; auto with le.
+      destruct (bind_var b l w); auto with le.
+  - apply type_verdict_mono; assumption.
+  - induction IH as [|q ps' Hq _ IHps]; auto with le.
+    destruct (Hq b v) as [-> | ->]; [left; reflexivity|].
+    destruct (pmatch m te outer b q v); auto with le.
+  - apply type_verdict_mono; assumption.
+Qed.
+
+Lemma do_match_mono : forall n m c e p v, (n <= m)%nat ->
+  le_res (do_match n c e p v) (do_match m c e p v).
+Proof.
+  intros n m c e p v Hle. unfold do_match.
+  destruct (pmatch_mono n m (c_tenv c) e Hle p [] v) as [-> | ->]; [left; reflexivity | right; reflexivity].
+Qed.
+
+(* every judgement of the evaluator at fuel n is below the same judgement at fuel m *)
+Definition mono_at (mods : list (list atom * program)) (n m : nat) : Prop :=
+  (forall c e t v, le_res (eval_term mods n c e t v) (eval_term mods m c e t v)) /\
+  (forall w v, le_res (apply_value mods n w v) (apply_value mods m w v)) /\
+  (forall f a acc, le_res (call mods n f a acc) (call mods m f a acc)) /\
+  (forall c e ts v, le_res (eval_terms mods n c e ts v) (eval_terms mods m c e ts v)) /\
+  (forall c e ch v, le_res (eval_chain mods n c e ch v) (eval_chain mods m c e ch v)) /\
+  (forall c e cs v, le_res (eval_seq mods n c e cs v) (eval_seq mods m c e cs v)) /\
+  (forall c e bs v, le_res (eval_branches mods n c e bs v) (eval_branches mods m c e bs v)) /\
+  (forall c e b v, le_res (eval_expr mods n c e b v) (eval_expr mods m c e b v)) /\
+  (forall c e fs v acc inh, le_res (eval_fields mods n c e fs v acc inh) (eval_fields mods m c e fs v acc inh)) /\
+  (forall c e segs v acc, le_res (eval_segments mods n c e segs v acc) (eval_segments mods m c e segs v acc)) /\
+  (forall path, le_res (eval_import mods n path) (eval_import mods m path)) /\
+  (forall p, le_res (eval_program mods n p) (eval_program mods m p)).
+
+Ltac le_struct :=
+  repeat match goal with
+  | |- le_res ?a ?a => apply le_refl
+  | |- le_res Timeout _ => apply le_timeout
+  | |- le_res (bind _ _) (bind _ _) => apply le_bind; [| intros ?]
+  | |- le_res (tick _ _) (tick _ _) => apply le_tick
+  | |- le_res (with_env _ _) (with_env _ _) => apply le_with_env
+  | |- le_res (do_match _ _ _ _ _) (do_match _ _ _ _ _) => apply do_match_mono; assumption
+  | |- le_res (if ?x then _ else _) (if ?x then _ else _) => destruct x
+  | |- le_res (match ?x with _ => _ end) (match ?x with _ => _ end) => destruct x
+  | |- le_res (match ?x with _ => _ end) (match ?y with _ => _ end) =>
+      let H := fresh "Hle" in
+      assert (H : le_res x y) by auto; destruct H as [H | H]; rewrite H; [apply le_timeout | destruct y]
+  | H : forall _, _ |- le_res _ _ => apply H
+  end.
+
+Lemma mono_all : forall mods n m, (n <= m)%nat -> mono_at mods n m.
+Proof.
+  intros mods. induction n as [|n IH]; intros m Hle.
+  - repeat split; intros; apply le_timeout.
+  - destruct m as [|m]; [lia|]. assert (Hle' : (n <= m)%nat) by lia.
+    destruct (IH m Hle') as (Hterm & Happly & Hcall & Hterms & Hchain & Hseq & Hbranches & Hexpr & Hfields & Hsegs & Himport & Hprog).
+    clear IH. repeat split; intros.
+    + (* eval_term *) simpl. le_struct.
+    + (* apply_value *) simpl. le_struct.
+    + (* call *) simpl. le_struct.
+    + simpl. le_struct.
+    + simpl. le_struct.
+    + simpl. le_struct.
+    + simpl. le_struct.
+    + simpl. le_struct.
+    + simpl. le_struct.
+    + simpl. le_struct.
+    + simpl. le_struct.
+    + simpl. destruct p as [ss]. le_struct.
+Qed.
+
+Theorem eval_fuel_mono : forall mods n m c e b v r,
+  (n <= m)%nat -> eval mods n c e b v = r -> r <> Timeout -> eval mods m c e b v = r.
+Proof.
+  intros mods n m c e b v r Hle H Hr. unfold eval in *.
+  destruct (mono_all mods n m Hle) as (_ & _ & _ & _ & _ & _ & _ & Hexpr & _).
+  destruct (Hexpr c e b v) as [Ht | Heq]; congruence.
+Qed.
+
+Theorem eval_program_fuel_mono : forall mods n m p r,
+  (n <= m)%nat -> eval_program mods n p = r -> r <> Timeout -> eval_program mods m p = r.
+Proof.
+  intros mods n m p r Hle H Hr.
+  destruct (mono_all mods n m Hle) as (_ & _ & _ & _ & _ & _ & _ & _ & _ & _ & _ & Hprog).
+  destruct (Hprog p) as [Ht | Heq]; congruence.
+Qed.
+
+(* the semantics is a partial function: two fuels that both finish agree *)
+Corollary eval_deterministic : forall mods n m c e b v,
+  eval mods n c e b v <> Timeout -> eval mods m c e b v <> Timeout ->
+  eval mods n c e b v = eval mods m c e b v.
+Proof.
+  intros mods n m c e b v Hn Hm. destruct (Nat.le_ge_cases n m) as [H | H].
+  - symmetry. apply (eval_fuel_mono mods n m); auto.
+  - apply (eval_fuel_mono mods m n); auto.
+Qed.
+
+(* ------------------------------------------------------------------------------------------
+   A match evaluates to Ok or [].  On success the scope is extended by the bindings the pattern
+   made; on failure by its static binders, all nil (reading R3); nothing else changes. *)
+Theorem match_verdict : forall n c e p v r e' w,
+  do_match n c e p v = Ret (r, e') w ->
+  (r = vok /\ exists b, pmatch n (c_tenv c) e [] p v = POk b /\ e' = b ++ e) \/
+  (r = vnil /\ pmatch n (c_tenv c) e [] p v = PFail /\ e' = nil_fill (binders p) ++ e).
+Proof.
+  intros n c e p v r e' w H. unfold do_match in H.
+  destruct (pmatch n (c_tenv c) e [] p v) as [b| | |] eqn:Hp; try discriminate.
+  - left. inversion H; subst. split; [reflexivity|]. exists b. auto.
+  - right. inversion H; subst. auto.
+Qed.
+
+Corollary match_term_verdict : forall mods n c e p v r e' w,
+  eval_term mods (S n) c e (Match p) v = Ret (r, e') w -> r = vok \/ r = vnil.
+Proof.
+  intros mods n c e p v r e' w H. simpl in H. apply match_verdict in H. tauto.
+Qed.
+
+(* a bare binder always succeeds and binds exactly that name, nil included *)
+Lemma bare_binder_always_succeeds : forall n c e x v,
+  do_match n c e (MIdentifier x) v = Ret (vok, (x, v) :: e) st0.
+Proof. reflexivity. Qed.
+
+(* which names a successful match binds: the pattern's static binders (for patterns without `*`,
+   whose binders depend on the value, and whose alternatives bind the same names) *)
+Fixpoint star_free (p : pattern) : Prop :=
+  match p with
+  | MStar _ => False
+  | MTuple _ fs => (fix go (l : list match_field) : Prop :=
+                      match l with [] => True | MatchField _ q :: r => star_free q /\ go r end) fs
+  | MPartial _ fs => (fix go (l : list partial_field) : Prop :=
+                        match l with
+                        | [] => True
+                        | PartialPatternField _ (Some q) :: r => star_free q /\ go r
+                        | PartialPatternField _ None :: r => go r
+                        end) fs
+  | MOr ps => (fix go (l : list pattern) : Prop :=
+                 match l with [] => True | q :: r => star_free q /\ go r end) ps
+  | _ => True
+  end.
+
+Definition extends (b b' : env) : Prop := exists d, b' = d ++ b.
+Lemma extends_refl : forall b, extends b b.
+Proof. intros b; exists []; reflexivity. Qed.
+Lemma extends_trans : forall a b c, extends a b -> extends b c -> extends a c.
+Proof. intros a b c [d1 ->] [d2 ->]. exists (d2 ++ d1). rewrite app_assoc. reflexivity. Qed.
+
+Lemma eq_verdict_ok : forall b w v b', eq_verdict b w v = POk b' -> b' = b.
+Proof. intros b w v b' H. unfold eq_verdict in H. destruct (value_eqb w v) as [[|]|]; inversion H; reflexivity. Qed.
+
+Lemma bind_var_extends : forall b x v b', bind_var b x v = POk b' -> extends b b'.
+Proof.
+  intros b x v b' H. unfold bind_var in H. destruct (lookup x b).
+  - apply eq_verdict_ok in H. subst. apply extends_refl.
+  - inversion H. exists [(x, v)]. reflexivity.
+Qed.
+
+Lemma type_verdict_ok : forall n te t v k b', type_verdict n te t v k = POk b' -> k = POk b'.
+Proof.
+  intros n te t v k b' H. unfold type_verdict in H.
+  destruct (inhab n te t t v) as [[|] ?| | |]; try discriminate; assumption.
+Qed.
+
+(* a successful match only ADDS bindings (it never drops or changes one made earlier in the same
+   pattern) *)
+Lemma pmatch_extends : forall n te outer p b v b',
+  pmatch n te outer b p v = POk b' -> extends b b'.
+Proof.
+  intros n te outer p. induction p as [x|l|bs|name fs IH|name fs IH|name| |x|t|ps IH|t x] using pattern_ind';
+    intros b v b' H; cbn [pmatch] in H.
+  - eapply bind_var_extends; eassumption.
+  - apply eq_verdict_ok in H; subst; apply extends_refl.
+  - apply eq_verdict_ok in H; subst; apply extends_refl.
+  - destruct v as [| |vn vfs| |]; try discriminate. destruct (oatom_eqb name vn); try discriminate.
+    revert b vfs H. induction IH as [|[l q] fs' Hq _ IHfs]; intros b vfs H; destruct vfs as [|[k w] ws]; try discriminate.
+    + inversion H; apply extends_refl.
+    + destruct (oatom_eqb l k); try discriminate.
+      destruct (pmatch n te outer b q w) as [b1| | |] eqn:Hq1; try discriminate.
+      eapply extends_trans; [eapply Hq; eassumption | eapply IHfs; eassumption].
+  - destruct v as [| |vn vfs| |]; try discriminate. destruct (name_ok name vn); try discriminate.
+    revert b H. induction IH as [|[l [q|]] fs' Hq _ IHfs]; intros b H.
+    + inversion H; apply extends_refl.
+    + destruct (find_field l vfs) as [w|]; try discriminate.
+      destruct (pmatch n te outer b q w) as [b1| | |] eqn:Hq1; try discriminate.
+      eapply extends_trans; [eapply Hq; eassumption | eapply IHfs; eassumption].
+    + destruct (find_field l vfs) as [w|]; try discriminate.
+      destruct (bind_var b l w) as [b1| | |] eqn:Hq1; try discriminate.
+      eapply extends_trans; [eapply bind_var_extends; eassumption | eapply IHfs; eassumption].
+  - destruct v as [| |vn vfs| |]; try discriminate. destruct (name_ok name vn); try discriminate.
+    revert b H. induction vfs as [|[[l|] w] r IHr]; intros b H; cbn [bind_star] in H.
+    + inversion H; apply extends_refl.
+    + destruct (bind_var b l w) as [b1| | |] eqn:Hb; try discriminate.
+      eapply extends_trans; [eapply bind_var_extends; eassumption | eapply IHr; eassumption].
+    + eapply IHr; eassumption.
+  - inversion H; apply extends_refl.
+  - destruct (lookup x outer); try discriminate. apply eq_verdict_ok in H; subst; apply extends_refl.
+  - apply type_verdict_ok in H. inversion H; apply extends_refl.
+  - induction IH as [|q ps' Hq _ IHps]; try discriminate.
+    destruct (pmatch n te outer b q v) as [b1| | |] eqn:Hq1; try discriminate.
+    + inversion H; subst. eapply Hq; eassumption.
+    + apply IHps; assumption.
+  - apply type_verdict_ok in H. eapply bind_var_extends; eassumption.
+Qed.
+
+(* ... so after a successful match every binding of the enclosing scope is still there *)
+Corollary match_preserves_scope : forall n c e p v e' w,
+  do_match n c e p v = Ret (vok, e') w -> exists b, e' = b ++ e.
+Proof.
+  intros n c e p v e' w H. apply match_verdict in H. destruct H as [(_ & b & _ & ->) | (Hr & _)].
+  - eauto.
+  - discriminate.
+Qed.
+
+(* ------------------------------------------------------------------------------------------
+   Non-vacuity: concrete programs (the spec's own examples with their documented results),
+   evaluated by vm_compute.  Atoms: identifiers/tuple names are arbitrary numbers >= 13. *)
+Definition x_ : atom := 100. Definition y_ : atom := 101. Definition f_ : atom := 102.
+Definition a_ : atom := 103. Definition b_ : atom := 104.
+Definition A_ : atom := 200. Definition B_ : atom := 201. Definition Done_ : atom := 202.
+
+Definition int (n : Z) : term := Literal (LInteger n).
+Definition nil_t : term := Tuple Anonymous [].
+Definition ch (ts : list term) : chain := Chain None ts.
+Definition bindc (p : pattern) (ts : list term) : chain := Chain (Some p) ts.
+Definition var (x : atom) : term := Access (mkAccess (Some (Identifier x)) []).
+Definition fld (ts : list term) : tuple_field := TupleField None (FChain (ch ts)).
+Definition prog (cs : list chain) : program := Program [StmtExpression (Sequence cs)].
+Definition val_of {A} (r : res A) : option A := match r with Ret a _ => Some a | _ => None end.
+
+(* spec "Control flow": `[] 5` is 5 (nil flows through a chain); `[], 5` is [] (short-circuit) *)
+Example ex_chain_vs_sequence :
+  val_of (eval_program [] 20 (prog [ch [nil_t; int 5]])) = Some (VInt 5) /\
+  eval_program [] 20 (prog [ch [nil_t]; ch [int 5]]) = Ret vnil ev_short.
+Proof. split; vm_compute; reflexivity. Qed.
+
+(* spec "Blocks": `B[42] { =A[a] => 1 | =B[b] => 2 }` is 2: the first branch falls through, the
+   second commits *)
+Definition ex_block : term :=
+  Block (Expression [Branch (Sequence [ch [Match (MTuple (Some A_) [MatchField None (MIdentifier a_)])]]) (Some (Sequence [ch [int 1]]));
+                     Branch (Sequence [ch [Match (MTuple (Some B_) [MatchField None (MIdentifier b_)])]]) (Some (Sequence [ch [int 2]]))]).
+Example ex_fallthrough_then_commit :
+  exists w, eval_program [] 30 (prog [ch [Tuple (Named B_) [fld [int 42]]; ex_block]]) = Ret (VInt 2) w /\
+            n_fallthrough w = 1 /\ n_commit w = 1.
+Proof. eexists. vm_compute. repeat split. Qed.
+
+(* spec "Condition-consequence": `{ 1 => [], 10 | 2 => 20 }` is []: a failing consequence commits *)
+Example ex_consequence_commits :
+  val_of (eval_program [] 30 (prog [ch [Block (Expression
+      [Branch (Sequence [ch [int 1]]) (Some (Sequence [ch [nil_t]; ch [int 10]]));
+       Branch (Sequence [ch [int 2]]) (Some (Sequence [ch [int 20]]))])]])) = Some vnil.
+Proof. vm_compute; reflexivity. Qed.
+
+(* spec "Variable scoping": `x = 42, { x = 5 }, x` is 42 *)
+Example ex_block_scoping :
+  val_of (eval_program [] 30 (prog [bindc (MIdentifier x_) [int 42];
+                                    ch [Block (Expression [Branch (Sequence [bindc (MIdentifier x_) [int 5]]) None])];
+                                    ch [var x_]])) = Some (VInt 42).
+Proof. vm_compute; reflexivity. Qed.
+
+(* closures capture by value: `x = 1, f = #{ x }, x = 2, [] f` is 1 *)
+Example ex_closure_by_value :
+  val_of (eval_program [] 30 (prog [bindc (MIdentifier x_) [int 1];
+                                    bindc (MIdentifier f_) [Function [] None None (Some (Expression [Branch (Sequence [ch [var x_]]) None]))];
+                                    bindc (MIdentifier x_) [int 2];
+                                    ch [nil_t; var f_]])) = Some (VInt 1).
+Proof. vm_compute; reflexivity. Qed.
+
+(* spec "Pattern matching": `[5, 5] =[x, x]` is Ok, `[5, 6] =[x, x]` is []; a failed match
+   leaves its binders nil: `[1, 2] =[a, 3] [~, a]` is [[], []] *)
+Definition pair (p q : Z) : term := Tuple Anonymous [fld [int p]; fld [int q]].
+Definition ripple : term := Access (mkAccess (Some Ripple) []).
+Example ex_match_verdict :
+  val_of (eval_program [] 30 (prog [ch [pair 5 5; Match (MTuple None [MatchField None (MIdentifier x_); MatchField None (MIdentifier x_)])]])) = Some vok /\
+  val_of (eval_program [] 30 (prog [ch [pair 5 6; Match (MTuple None [MatchField None (MIdentifier x_); MatchField None (MIdentifier x_)])]])) = Some vnil /\
+  val_of (eval_program [] 30 (prog [ch [pair 1 2; Match (MTuple None [MatchField None (MIdentifier a_); MatchField None (MLiteral (LInteger 3))]);
+                                        Tuple Anonymous [fld [ripple]; fld [var a_]]]])) = Some (VTuple None [(None, vnil); (None, vnil)]).
+Proof. repeat split; vm_compute; reflexivity. Qed.
+
+(* spec "Tail recursion": `f = #'int { | =0 => Done | [~, 1] __integer_subtract__ ^ }, 3 f`
+   is Done after three tail calls *)
+Definition ex_countdown : term :=
+  Function [] (Some (TPrimitive PInt)) None (Some (Expression
+    [Branch (Sequence [ch [Match (MLiteral (LInteger 0))]]) (Some (Sequence [ch [Tuple (Named Done_) []]]));
+     Branch (Sequence [ch [Tuple Anonymous [fld [ripple]; fld [int 1]];
+                           Access (mkAccess (Some (Builtin b_integer_subtract)) []);
+                           Access (mkAccess (Some (TailCall None)) [])]]) None])).
+Example ex_tail_calls :
+  exists w, eval_program [] 40 (prog [bindc (MIdentifier f_) [ex_countdown]; ch [int 3; var f_]]) = Ret (VTuple (Some Done_) []) w /\
+            n_tail_call w = 3.
+Proof. eexists. vm_compute. split; reflexivity. Qed.
+
+(* fuel monotonicity is not vacuous: the countdown needs fuel; with too little it times out, with
+   enough it finishes, and more fuel does not change the outcome *)
+Example ex_fuel :
+  eval_program [] 5 (prog [bindc (MIdentifier f_) [ex_countdown]; ch [int 3; var f_]]) = Timeout /\
+  val_of (eval_program [] 40 (prog [bindc (MIdentifier f_) [ex_countdown]; ch [int 3; var f_]])) =
+  val_of (eval_program [] 400 (prog [bindc (MIdentifier f_) [ex_countdown]; ch [int 3; var f_]])).
+Proof. split; vm_compute; reflexivity. Qed.
